@@ -213,3 +213,70 @@ func (C15) Apply(env world.Env, mm mc.Model, ev string) mc.Step {
 	st.Viols = vs
 	return st
 }
+
+// ---- volume: more providers than one page of the SDK's paginated store walk (100) ----
+
+func c15VolumeAccounts(n int) []string {
+	var out []string
+	for i := 0; i < n; i++ {
+		out = append(out, fmt.Sprintf("v%03d", i))
+	}
+	return out
+}
+
+func c15VolumeEnum() mc.Enum {
+	cfg := world.Config{Accounts: c15VolumeAccounts(130), Storage: func(p *storagetypes.Params) { p.CollateralPrice = c15Price }}
+	e := mc.Enum{Prop: "C15", Name: "C15/volume", Cfg: cfg, ConfirmB: true, ConfB: 1}
+	for _, n := range []int{99, 100, 101, 130} {
+		n := n
+		e.Cases = append(e.Cases, mc.Case{Desc: fmt.Sprintf("providers=%d", n), Run: func(env world.Env) mc.CaseResult {
+			w := env.W()
+			k := w.App.StorageKeeper
+			cr := mc.CaseResult{Class: "ok", Nontrivial: true}
+			escrow := modAddr(storagetypes.CollateralCollectorName)
+			names := c15VolumeAccounts(n)
+			for i, v := range names {
+				mustOK(env.Deliver(storagetypes.NewMsgInitProvider(w.A(v).Bech, fmt.Sprintf("https://node%d.volume.com", i), 1_000_000, "kb")), "InitProvider")
+			}
+			check := func(when string, want int) bool {
+				sum, cnt := sdk.ZeroInt(), 0
+				for _, c := range k.GetAllCollateral(env.Ctx()) {
+					sum = sum.AddRaw(c.Amount)
+					cnt++
+				}
+				esc := w.Bal(env.Ctx(), escrow, "ujkl")
+				if !esc.Equal(sdk.NewInt(int64(want)*c15Price)) || !sum.Equal(esc) || cnt != want {
+					cr.Viols = append(cr.Viols, viol("escrow-backs-collateral", "volume "+when, "%s, %d providers registered: escrow holds %s, the collateral listing has %d records summing to %s", when, want, esc, cnt, sum))
+					return false
+				}
+				return true
+			}
+			if !check("after registration", n) {
+				return cr
+			}
+			if err := restartModule(env, "storage"); err != nil {
+				cr.Viols = append(cr.Viols, viol("escrow-backs-collateral", "volume restart-failed", "export -> import of the storage module failed: %v", err))
+				return cr
+			}
+			if !check("after a restart of the module from its exported genesis", n) {
+				return cr
+			}
+			for i, v := range names {
+				before := w.Bal(env.Ctx(), w.A(v).Addr, "ujkl")
+				res := env.Deliver(storagetypes.NewMsgShutdownProvider(w.A(v).Bech))
+				got := w.Bal(env.Ctx(), w.A(v).Addr, "ujkl").Sub(before)
+				if !res.OK() || !got.Equal(sdk.NewInt(c15Price)) {
+					cr.Viols = append(cr.Viols, viol("shutdown-returns-recorded", "volume", "provider %d of %d: shutdown accepted=%v, returned %s of %d (err %v)", i+1, n, res.OK(), got, c15Price, res.Err))
+					return cr
+				}
+			}
+			check("after every provider shut down", 0)
+			return cr
+		}})
+	}
+	return e
+}
+
+func init() {
+	CaseReplayers["C15/volume"] = func(r *mc.Run, c string) { r.ReplayCase(c15VolumeEnum(), c) }
+}
